@@ -106,7 +106,7 @@ def entries():
     psd = L(lambda c: (lambda a: a @ a.T / np.trace(a @ a.T))(mat((4, 4), c, 37)))
     add("metrics.vonneumann_entropy", [ME.vonneumann_entropy], [Spec("density-matrix", ME.vonneumann_entropy, {"tensor": psd})], "metrics")
     add("metrics.cp_vonneumann_entropy", [ME.cp_vonneumann_entropy],
-        [Spec("default", ME.cp_vonneumann_entropy, {"tensor": L(lambda c: cp_dec(c, 2, "nonunit", nonneg=True, shape=(4, 4)))}, {"tensor": "cp-weights-nonunit"})], "metrics")
+        [Spec("default", ME.cp_vonneumann_entropy, {"tensor": L(lambda c: cp_dec(c, 2, "nonunit", nonneg=True, shape=(4, 4)))}, {"tensor": "cp-nonunit-weights"})], "metrics")
     add("metrics.tt_vonneumann_entropy", [ME.tt_vonneumann_entropy],
         [Spec("default", ME.tt_vonneumann_entropy, {"tensor": L(lambda c: tt_dec(c, shape=(2, 2, 2, 2)))}, {"tensor": "tt"})], "metrics")
 
@@ -121,7 +121,7 @@ def entries():
         Spec("default", PP.svd_decompress_parafac2_tensor,
              {"parafac2_tensor": L(lambda c: parafac2_dec(c)), "loading_matrices": L(lambda c: [np.ascontiguousarray(np.linalg.qr(mat((5, 3), c, 43))[0]), None,
                                                                                                 np.ascontiguousarray(np.linalg.qr(mat((6, 2), c, 44))[0])])},
-             {"parafac2_tensor": "parafac2-weights-none", "loading_matrices": "list-with-None"}),
+             {"parafac2_tensor": "parafac2-unit-weights", "loading_matrices": "list-with-None"}),
     ], "preprocessing")
 
     # ---- regression ----------------------------------------------------------------------------------------------
